@@ -29,6 +29,32 @@ type vSink struct {
 	start time.Time
 	keys  []string // configured keys, lower-cased and sorted (what the processor uses)
 	lines []string
+	// values are arbitrary byte strings (brackets, quotes, commas, non-UTF-8, very long ...): they are interned byte-exactly,
+	// the line protocol carries the numbers; a value the export context shows that no caller sent gets a fresh number
+	intern map[string]int
+}
+
+func (s *vSink) val(v string) int {
+	if s.intern == nil {
+		s.intern = map[string]int{"": 0}
+	}
+	if n, ok := s.intern[v]; ok {
+		return n
+	}
+	n := len(s.intern)
+	s.intern[v] = n
+	return n
+}
+
+func (s *vSink) vals(vs []string) string {
+	if len(vs) == 0 {
+		return "-"
+	}
+	var out []string
+	for _, v := range vs {
+		out = append(out, fmt.Sprint(s.val(v)))
+	}
+	return strings.Join(out, ".")
 }
 
 func (s *vSink) key(ctx context.Context) string {
@@ -38,7 +64,7 @@ func (s *vSink) key(ctx context.Context) string {
 	info := client.FromContext(ctx)
 	var parts []string
 	for _, k := range s.keys {
-		parts = append(parts, vVals(info.Metadata.Get(k)))
+		parts = append(parts, s.vals(info.Metadata.Get(k)))
 	}
 	return strings.Join(parts, "/")
 }
@@ -258,7 +284,7 @@ func vRunProc(t *testing.T, kind string) {
 				var parts []string
 				for _, k := range sink.keys {
 					var vs []string
-					switch rnd.IntN(9) {
+					switch rnd.IntN(12) {
 					case 0: // absent
 					case 1:
 						vs = []string{""}
@@ -268,6 +294,15 @@ func vRunProc(t *testing.T, kind string) {
 						vs = []string{"v2", "v1"}
 					case 4:
 						vs = []string{[]string{"v12", "v10"}[rnd.IntN(2)]}
+					case 5, 6, 7:
+						// adversarial values: what a non-injective encoding of the group (fmt, JSON, attribute encoders, lossy
+						// UTF-8 handling) would confuse with another group
+						pool := [][]string{
+							{"[]"}, {`["a","b"]`}, {"a", "b"}, {"a,b"}, {`a"b`}, {"a\\b"}, {"[a]"}, {"[a b]"}, {"a b"},
+							{"\xff"}, {"\xfe"}, {"\xffx", "y"}, {"\xfex", "y"}, {"V1"}, {"v1 "}, {strings.Repeat("x", 300)},
+							{strings.Repeat("x", 299) + "y"}, {"-"}, {"0"}, {"null"}, {"<nil>"},
+						}
+						vs = pool[rnd.IntN(len(pool))]
 					default:
 						vs = []string{fmt.Sprintf("v%d", 1+rnd.IntN(3))}
 					}
@@ -281,7 +316,7 @@ func vRunProc(t *testing.T, kind string) {
 						}
 						md[name] = vs
 					}
-					parts = append(parts, vVals(vs))
+					parts = append(parts, sink.vals(vs))
 				}
 				key := "_"
 				if nkeys > 0 {
